@@ -25,6 +25,41 @@ def V(name, value):
     return _VARS[name]
 
 
+WATCH = []
+
+
+def deep_snapshot(o, depth=0):
+    """structural snapshot of an argument object (symbolic leaves by identity)"""
+    import numpy
+    if isinstance(o, Sym):
+        return ('sym', o._id)
+    if depth > 8:
+        return ('deep',)
+    if hasattr(o, '__attrs_attrs__'):
+        return (type(o).__name__,) + tuple((a.name, deep_snapshot(getattr(o, a.name), depth + 1)) for a in o.__attrs_attrs__)
+    if isinstance(o, (list, tuple)):
+        return (type(o).__name__, len(o)) + tuple(deep_snapshot(x, depth + 1) for x in o)
+    if isinstance(o, numpy.ndarray):
+        return ('ndarray', o.shape) + tuple(deep_snapshot(x, depth + 1) for x in o.flat)
+    if isinstance(o, dict):
+        return ('dict',) + tuple((k, deep_snapshot(v, depth + 1)) for k, v in sorted(o.items(), key=lambda kv: str(kv[0])))
+    if isinstance(o, (int, float, str, bool)) or o is None:
+        return o
+    return ('obj', type(o).__name__)
+
+
+def watch(obj):
+    """register an argument object of the traced call: it must be deeply unchanged afterwards"""
+    WATCH.append((obj, deep_snapshot(obj)))
+    return obj
+
+
+def check_watched():
+    for obj, snap in WATCH:
+        if deep_snapshot(obj) != snap:
+            raise TraceEscape('the traced call modified an argument object of type %s' % type(obj).__name__)
+
+
 def all_vars():
     return dict(_VARS)
 
@@ -96,6 +131,7 @@ def sym_mixture(nrtl='one', uniquac=True, vp1='antoine', vp2='antoine', uq1=True
     m = pv.Mixture(name=name, first_component=c1, second_component=c2,
                    nrtl_params=npar, uniquac_params=upar)
     txt = '(Build_Mixture N %s %s %s %s)' % (t1, t2, ntxt, utxt)
+    watch(m)
     return m, txt
 
 
@@ -103,6 +139,7 @@ def sym_composition(leaf, value, ctype):
     p = V(leaf, value)
     c = pv.Composition(p=0.5, type=ctype)
     c.p = p      # bypass the validator for the *input* (the leaf is constrained by hypotheses)
+    watch(c)
     return c, '(Build_Composition N %s %s)' % (leaf, 'Molar' if ctype == 'molar' else 'Weight')
 
 
@@ -178,4 +215,5 @@ def app(template, syms, val):
 def sym_permeance(leaf, value, units='kg/(m2*h*kPa)'):
     p = pv.Permeance(value=1.0, units=units)
     p.value = V(leaf, value)
+    watch(p)
     return p, '(Build_Permeance N %s %s)' % (leaf, units_text(units))
